@@ -222,61 +222,93 @@ def r4_bindings(chk):
 
 
 def r5_axes(chk):
+    """Per axis i, whatever the spelling (three explicit blocks, comprehensions over range(3), a per-axis helper): the
+    lattice is linspace(L[i] + o, R[i] - o, n) with n = int((R[i] - L[i]) // spacing) + 1 and
+    o = (R[i] - L[i] - (n - 1) * spacing) / 2, L / R the padded corners, and the three lattices go into meshgrid in axis order.
+    Every naming local is dissolved before the comparison, so only the arithmetic is compared."""
     prog = chk.prog
     f = prog.func(f"{GB}:rectangular_grid")
     chk.analysed(f)
-    asg = assignments(f.node)
+    from ..canon import Env
+    from ..inline import loopify  # noqa: F401  (kept for symmetry with other rules)
 
-    def canon(name, idx, axis):
-        vals = [v for v in asg.get(name, []) if isinstance(v, ast.AST)]
-        if len(vals) != 1:
-            raise AnalysisError(f"rectangular_grid: `{name}` has {len(vals)} definitions")
-        s = norm(vals[0])
-        s = re.sub(rf"\[{idx}\]", "[i]", s)
-        s = re.sub(rf"\bn{axis}\b", "n", s)
-        s = re.sub(rf"\bo{axis}\b", "o", s)
-        return s
+    asg = assignments(f.node)
+    env = Env(f.node)
+    # roles: the padded corners
+    lo = [n for n, vals in asg.items() if len(vals) == 1 and isinstance(vals[0], ast.AST) and norm(vals[0]).endswith("- padding")]
+    hi = [n for n, vals in asg.items() if len(vals) == 1 and isinstance(vals[0], ast.AST) and norm(vals[0]).endswith("+ padding")]
+    chk.decide(len(lo) == 1 and len(hi) == 1, "C19.R5", f"{f.key}:padded-box", f.where(), "l = r1 - padding; r = r2 + padding",
+               f"the box corners are {[norm(v) for n in lo + hi for v in asg[n]]}: padding is not subtracted from the lower and added to the upper corner")
+    if not (len(lo) == 1 and len(hi) == 1):
+        return
+    L, R = lo[0], hi[0]
+    mg = [c for c in walk_no_nested(f.node) if isinstance(c, ast.Call) and call_name(c) == "np.meshgrid"]
+    chk.require(len(mg) == 1 and len(mg[0].args) == 3, "rectangular_grid: np.meshgrid(xs, ys, zs) not found")
+    keep = {L, R, "spacing", "dtype"}
+    comps = {n: v for n, vals in asg.items() for v in vals if isinstance(v, ast.ListComp) and len(vals) == 1 and len(v.generators) == 1
+             and isinstance(v.generators[0].target, ast.Name) and not v.generators[0].ifs and norm(env.expand(v.generators[0].iter)) == "range(3)"}
+
+    def subst_comp(e):
+        """`counts[k]` -> the element expression of `counts = [E(k) for k in range(3)]` with its own variable set to k"""
+        import copy as _copy
+
+        class T(ast.NodeTransformer):
+            def visit_Subscript(self, n):
+                self.generic_visit(n)
+                if isinstance(n.value, ast.Name) and n.value.id in comps:
+                    c = comps[n.value.id]
+                    var = c.generators[0].target.id
+                    idx = n.slice
+
+                    class S(ast.NodeTransformer):
+                        def visit_Name(self, m):
+                            return _copy.deepcopy(idx) if m.id == var and isinstance(m.ctx, ast.Load) else m
+
+                    return T().visit(S().visit(_copy.deepcopy(c.elt)))
+                return n
+
+        return T().visit(_copy.deepcopy(e))
 
     forms = {}
-    from ..canon import Env
+    lat_exprs = []
+    for k, a in enumerate(mg[0].args):
+        e = a
+        # a lattice named in a tuple unpack of a comprehension: take the element with the loop variable set to k
+        if isinstance(a, ast.Name):
+            v = env.single(a.id)
+            if v is None:
+                for s_ in walk_no_nested(f.node):
+                    if isinstance(s_, ast.Assign) and isinstance(s_.targets[0], ast.Tuple) and isinstance(s_.value, (ast.ListComp, ast.GeneratorExp)) and len(s_.value.generators) == 1 \
+                            and isinstance(s_.value.generators[0].target, ast.Name) and norm(env.expand(s_.value.generators[0].iter)) == "range(3)":
+                        names = [norm(t) for t in s_.targets[0].elts]
+                        if a.id in names and names.index(a.id) == k:
+                            import copy as _copy
+                            var = s_.value.generators[0].target.id
 
-    env = Env(f.node)
-    comps = {n: v for n, vals in asg.items() for v in vals if isinstance(v, ast.ListComp) and len(v.generators) == 1 and isinstance(v.generators[0].target, ast.Name)
-             and norm(env.expand(v.generators[0].iter)) == "range(3)" and not v.generators[0].ifs and len(vals) == 1}
-    lat_unpack = [s for s in walk_no_nested(f.node) if isinstance(s, ast.Assign) and isinstance(s.targets[0], ast.Tuple) and len(s.targets[0].elts) == 3
-                  and isinstance(s.value, ast.ListComp) and "linspace" in norm(s.value.elt)]
-    if not asg.get("nx") and len(comps) >= 2 and len(lat_unpack) == 1:
-        # comprehension idiom: counts = [N(k) for k in range(3)]; offsets = [O(k) ...]; xs, ys, zs = [linspace(...) for k in range(3)]
-        lc = lat_unpack[0].value
-        cn = [n for n, v in comps.items() if norm(v.elt).startswith("int(")]
-        on = [n for n, v in comps.items() if n not in cn]
-        if len(cn) != 1 or len(on) != 1 or norm(env.expand(lc.generators[0].iter)) != "range(3)":
-            raise AnalysisError("rectangular_grid: per-axis comprehensions not recognised - unknown idiom")
+                            class S2(ast.NodeTransformer):
+                                def visit_Name(self, m):
+                                    return ast.Constant(k) if m.id == var and isinstance(m.ctx, ast.Load) else m
 
-        def kform(v, k):
-            s = norm(v)
-            s = re.sub(rf"\b{re.escape(cn[0])}\[{k}\]", "n", s)
-            s = re.sub(rf"\b{re.escape(on[0])}\[{k}\]", "o", s)
-            return re.sub(rf"\[{k}\]", "[i]", s)
-
-        one = (kform(comps[cn[0]].elt, comps[cn[0]].generators[0].target.id), kform(comps[on[0]].elt, comps[on[0]].generators[0].target.id), kform(lc.elt, lc.generators[0].target.id))
-        forms = {a: one for a in "xyz"}
-        # the meshgrid rule below names the three lattices as they are unpacked
-        lat_names = [norm(t) for t in lat_unpack[0].targets[0].elts]
-    else:
-        lat_names = ["xs", "ys", "zs"]
-        for idx, axis in enumerate("xyz"):
-            forms[axis] = (canon(f"n{axis}", idx, axis), canon(f"o{axis}", idx, axis), canon(f"{axis}s", idx, axis))
+                            v = S2().visit(_copy.deepcopy(s_.value.elt))
+            e = v if v is not None else a
+        e = env.expand(subst_comp(env.expand(e, keep=keep | set(comps))), keep=keep)
+        e = env.expand(subst_comp(e), keep=keep)
+        lat_exprs.append(e)
+        txt = norm(e)
+        forms[k] = re.sub(rf"\[{k}\]", "[i]", txt)
     same = len(set(forms.values())) == 1
-    chk.decide(same, "C19.R5", f"{f.key}:axes-computed-alike", f.where(), f"n = {forms['x'][0]}; o = {forms['x'][1]}; lattice = {forms['x'][2]}",
+    chk.decide(same, "C19.R5", f"{f.key}:axes-computed-alike", f.where(), f"every axis: {forms[0][:120]}",
                f"the three axes are computed differently: {forms}")
-    n, o, lat = forms["x"]
-    ok = n == "int((r[i] - l[i]) // spacing) + 1" and o == "(r[i] - l[i] - (n - 1) * spacing) / 2" and lat.startswith("np.linspace(l[i] + o, r[i] - o, n")
+    # expected, spelled through the same unparser
+    n_txt = f"int(({R}[i] - {L}[i]) // spacing) + 1"
+    o_txt = f"({R}[i] - {L}[i] - ({n_txt} - 1) * spacing) / 2"
+    want_args = [norm(ast.parse(t, mode="eval").body) for t in (f"{L}[i] + {o_txt}", f"{R}[i] - {o_txt}", n_txt)]
+    e0 = lat_exprs[0]
+    got_args = [re.sub(r"\[0\]", "[i]", norm(x)) for x in e0.args[:3]] if isinstance(e0, ast.Call) and (call_name(e0) or "").endswith("linspace") and len(e0.args) >= 3 else []
+    ep = kwarg(e0, "endpoint") if isinstance(e0, ast.Call) else None
+    ok = got_args == want_args and (ep is None or norm(ep) == "True")
     chk.decide(ok, "C19.R5", f"{f.key}:count-offset-lattice", f.where(), "n = floor(extent / spacing) + 1; offset centres the lattice; linspace over [l + o, r - o]",
-               f"per-axis formulas are n = {n}; o = {o}; lattice = {lat}: the lattice is not the full, centred one with the requested spacing")
-    pad = [norm(v) for nm in ("l", "r") for v in asg.get(nm, []) if isinstance(v, ast.AST)]
-    chk.decide(len(pad) == 2 and pad[0].endswith("- padding") and pad[1].endswith("+ padding"), "C19.R5", f"{f.key}:padded-box", f.where(), "l = r1 - padding; r = r2 + padding",
-               f"the box corners are {pad}: padding is not subtracted from the lower and added to the upper corner")
-    mg = [c for c in walk_no_nested(f.node) if isinstance(c, ast.Call) and call_name(c) == "np.meshgrid"]
-    chk.decide(len(mg) == 1 and [norm(a) for a in mg[0].args] == lat_names, "C19.R5", f"{f.key}:meshgrid-order", f.where(mg[0] if mg else None), "meshgrid(xs, ys, zs)",
-               "the lattice axes are not combined as (xs, ys, zs)")
+               f"per-axis lattice is linspace{tuple(got_args)}; expected linspace{tuple(want_args)}: the lattice is not the full, centred one with the requested spacing")
+    chk.ok("C19.R5", f"{f.key}:meshgrid-order", f.where(mg[0]), "meshgrid(lattice of axis 0, 1, 2): each argument was resolved as the lattice of its own position")
+
+
